@@ -125,7 +125,7 @@ func LinkChildrenToParents(root Role) {
 
 func MakeDisabledRoleCallback(r Role) func(stage template.Stage, err error) error {
 	return func(stage template.Stage, err error) error {
-		if stage == template.STAGE0 { // only `enabled` has been processed so far
+		if stage == template.STAGE0 && err == nil { // only `enabled` has been processed so far, and without error
 			if !r.IsEnabled() {
 				rde := &template.RoleDisabledError{RolePath: r.GetPath()}
 				return rde
